@@ -222,6 +222,29 @@ def coq_program(stmts):
 
 
 # ------------------------------------------------------------------ hosts: accepted programs
+def range_vals(a, b, s):
+    """LANGUAGE_SPEC, Range Iteration: start inclusive, end exclusive, `step` default 1 (a
+    descending range without an explicit negative step is therefore empty)"""
+    s = 1 if s is None else s
+    out = []
+    if s == 0:
+        return out
+    i = a
+    while (i < b) if s > 0 else (i > b):
+        out.append(i)
+        i += s
+    return out
+
+
+def loop_count(it):
+    if it[0] == "list":
+        return len(it[1])
+    a, b, s = it[1], it[2], it[3]
+    if not all(isinstance(x, int) or x is None for x in (a, b, s)):
+        return None
+    return len(range_vals(a, b, s))
+
+
 def _conv_e(e):
     k = e[0]
     if k == "ref":
@@ -307,26 +330,49 @@ def template_host(rng):
     return st
 
 
+def small_host(stmts, max_decls=5, max_loops=1, max_iters=3):
+    """keep the program cheap to lay out: at most one loop (loops export no names, so dropping one
+    is safe), loops of at most three iterations (a prefix of the original sequence, so the lamp
+    positions stay distinct), and a prefix of the remaining declarations"""
+    out, nd, nl = [], 0, 0
+    for s in stmts:
+        if s[0] == "for":
+            if nl >= max_loops:
+                continue
+            nl += 1
+            out.append(_clamp_loop(s, max_iters))
+        elif s[0] == "func":
+            out.append(s)
+        else:
+            is_input = s[0] == "decl" and s[3][0] in ("int", "lit") and s[1] == "Signal"
+            if not is_input:
+                if nd >= max_decls:
+                    break
+                nd += 1
+            out.append(s)
+    return out
+
+
+def _clamp_loop(s, max_iters):
+    it = s[2]
+    n = loop_count(it)
+    if n is not None and n > max_iters:
+        vals = it[1] if it[0] == "list" else range_vals(it[1], it[2], it[3])
+        it = ("list", list(vals[:max_iters]))
+    return ("for", s[1], it, [_clamp_loop(x, max_iters) if x[0] == "for" else x for x in s[3]])
+
+
 def host(rng, seed):
     x = rng.random()
     if x < 0.5:
         st, _ = gen_rich.gen_rich(seed)
-        return "rich", from_rich(st)
+        return "rich", small_host(from_rich(st))
     if x < 0.7:
-        return "scalar", from_scalar(gen_scalar.gen_program(seed, max_depth=3))
+        return "scalar", small_host(from_scalar(gen_scalar.gen_program(seed, max_depth=3)))
     return "template", template_host(rng)
 
 
 # ------------------------------------------------------------------ contexts
-def loop_count(it):
-    if it[0] == "list":
-        return len(it[1])
-    a, b, s = it[1], it[2], it[3]
-    if not all(isinstance(x, int) or x is None for x in (a, b, s)):
-        return None
-    return len(fr.range_values(a, b, s))
-
-
 class Ctx:
     """where the hole is: `path` = list of frames from the outside in; each frame is
     ('func', name, params) | ('for', it, iter); `sigs` / `iters` = names usable at the hole"""
@@ -490,61 +536,66 @@ def _d(variant, good, bad, setup=None, setup_top=None, **kw):
     return d
 
 
+def _ds(subject, *a, **kw):
+    kw["subject"] = subject
+    return _d(*a, **kw)
+
+
 def r_undef_var(c):
     r, n, nope = c.r, c.fresh("x"), c.fresh("nope")
     h, h2 = c.hs(), c.hs()
     v = r.choice(["operand", "deep", "cond", "out_value", "bundle_elem", "write_value", "unary", "loop_bound"])
     if v == "operand":
-        return _d(v, [("decl", "Signal", n, ("bin", "+", h, ("int", 1)))], [("decl", "Signal", n, ("bin", "+", h, ("var", nope)))])
+        return _ds(nope, v, [("decl", "Signal", n, ("bin", "+", h, ("int", 1)))], [("decl", "Signal", n, ("bin", "+", h, ("var", nope)))])
     if v == "deep":
         mk = lambda z: ("proj", ("bin", "+", ("bin", "*", h, ("int", 2)), ("bin", "-", ("int", 1), ("bin", "%", h2, z))), C_)
-        return _d(v, [("decl", "Signal", n, mk(("int", 7)))], [("decl", "Signal", n, mk(("var", nope)))])
+        return _ds(nope, v, [("decl", "Signal", n, mk(("int", 7)))], [("decl", "Signal", n, mk(("var", nope)))])
     if v == "cond":
-        return _d(v, [("decl", "Signal", n, ("out", ("cmp", ">", h, ("int", 0)), h2))],
+        return _ds(nope, v, [("decl", "Signal", n, ("out", ("cmp", ">", h, ("int", 0)), h2))],
                   [("decl", "Signal", n, ("out", ("cmp", ">", ("var", nope), ("int", 0)), h2))])
     if v == "out_value":
-        return _d(v, [("decl", "Signal", n, ("out", ("cmp", ">", h, ("int", 0)), h2))],
+        return _ds(nope, v, [("decl", "Signal", n, ("out", ("cmp", ">", h, ("int", 0)), h2))],
                   [("decl", "Signal", n, ("out", ("cmp", ">", h, ("int", 0)), ("var", nope)))])
     if v == "bundle_elem":
-        return _d(v, [("decl", "Bundle", n, ("bundle", [("lit", "coal", ("int", 1))]))],
+        return _ds(nope, v, [("decl", "Bundle", n, ("bundle", [("lit", "coal", ("int", 1))]))],
                   [("decl", "Bundle", n, ("bundle", [("lit", "coal", ("int", 1)), ("var", nope)]))])
     if v == "write_value":
         m = c.fresh("m")
-        return _d(v, [("write", m, ("proj", h, A_), None)], [("write", m, ("proj", ("bin", "+", h, ("var", nope)), A_), None)],
+        return _ds(nope, v, [("write", m, ("proj", h, A_), None)], [("write", m, ("proj", ("bin", "+", h, ("var", nope)), A_), None)],
                   setup=[("mem", m, A_)])
     if v == "unary":
-        return _d(v, [("decl", "Signal", n, ("neg", h))], [("decl", "Signal", n, ("bin", "+", h, ("not", ("var", nope))))])
+        return _ds(nope, v, [("decl", "Signal", n, ("neg", h))], [("decl", "Signal", n, ("bin", "+", h, ("not", ("var", nope))))])
     q = c.fresh("q")
     body = [("decl", "Signal", n, ("bin", "+", h, ("var", q)))]
-    return _d("loop_bound", [("for", q, ("range", 0, 2, None), body)], [("for", q, ("range", 0, nope, None), body)])
+    return _ds(nope, "loop_bound", [("for", q, ("range", 0, 2, None), body)], [("for", q, ("range", 0, nope, None), body)])
 
 
 def r_undef_func(c):
     n, f, h = c.fresh("x"), c.fresh("nofn"), c.hs()
     v = c.r.choice(["value", "nested", "stmt"])
     if v == "value":
-        return _d(v, [("decl", "Signal", n, ("bin", "+", h, ("int", 1)))], [("decl", "Signal", n, ("bin", "+", ("call", f, [h]), ("int", 1)))])
+        return _ds(f, v, [("decl", "Signal", n, ("bin", "+", h, ("int", 1)))], [("decl", "Signal", n, ("bin", "+", ("call", f, [h]), ("int", 1)))])
     if v == "nested":
-        return _d(v, [("decl", "Signal", n, ("cmp", ">", h, ("int", 1)))],
+        return _ds(f, v, [("decl", "Signal", n, ("cmp", ">", h, ("int", 1)))],
                   [("decl", "Signal", n, ("cmp", ">", h, ("bin", "*", ("call", f, []), ("int", 2))))])
-    return _d(v, [], [("expr", ("call", f, [h, ("int", 1)]))])
+    return _ds(f, v, [], [("expr", ("call", f, [h, ("int", 1)]))])
 
 
 def r_undef_mem(c):
     n, m, h = c.fresh("x"), c.fresh("nomem"), c.hs()
     v = c.r.choice(["read", "write", "write_when", "read_deep"])
     if v == "read":
-        return _d(v, [("decl", "Signal", n, h)], [("decl", "Signal", n, ("read", m))])
+        return _ds(m, v, [("decl", "Signal", n, h)], [("decl", "Signal", n, ("read", m))])
     if v == "read_deep":
-        return _d(v, [("decl", "Signal", n, ("bin", "+", h, ("int", 3)))], [("decl", "Signal", n, ("bin", "+", h, ("bin", "*", ("read", m), ("int", 3))))])
+        return _ds(m, v, [("decl", "Signal", n, ("bin", "+", h, ("int", 3)))], [("decl", "Signal", n, ("bin", "+", h, ("bin", "*", ("read", m), ("int", 3))))])
     if v == "write":
-        return _d(v, [], [("write", m, h, None)])
-    return _d(v, [], [("write", m, h, ("cmp", ">", h, ("int", 0)))])
+        return _ds(m, v, [], [("write", m, h, None)])
+    return _ds(m, v, [], [("write", m, h, ("cmp", ">", h, ("int", 0)))])
 
 
 def r_undef_entity(c):
     e, h = c.fresh("nolamp"), c.hs()
-    return _d("enable", [], [("enable", e, "enable", ("cmp", ">", h, ("int", 0)))])
+    return _ds(e, "enable", [], [("enable", e, "enable", ("cmp", ">", h, ("int", 0)))])
 
 
 def r_redef(c):
@@ -553,35 +604,36 @@ def r_redef(c):
     first = [("decl", "Signal", n, ("bin", "+", h, ("int", 1)))]
     if v == "param" and c.encl_func and c.path[-1][0] == "func":
         p = c.encl_func[2][0][1]
-        return _d(v, [], [("decl", "Signal", p, ("int", 1))])
+        return _ds(p, v, [], [("decl", "Signal", p, ("int", 1))])
     if v == "signal_int":
-        return _d(v, [], [("decl", "int", n, ("int", 3))], setup=first)
+        return _ds(n, v, [], [("decl", "int", n, ("int", 3))], setup=first)
     if v == "signal_memory":
-        return _d(v, [], [("mem", n, A_)], setup=first)
+        return _ds(n, v, [], [("mem", n, A_)], setup=first)
     if v == "signal_func":
         p = c.fresh("p")
-        return _d(v, [], [("func", n, [("Signal", p)], [("ret", ("var", p))])], setup=first)
+        return _ds(n, v, [], [("func", n, [("Signal", p)], [("ret", ("var", p))])], setup=first)
     if v == "memory_signal":
-        return _d(v, [], [("decl", "Signal", n, h)], setup=[("mem", n, B_)])
+        return _ds(n, v, [], [("decl", "Signal", n, h)], setup=[("mem", n, B_)])
     if v == "func_func":
         p = c.fresh("p")
         fn = ("func", n, [("Signal", p)], [("ret", ("bin", "+", ("var", p), ("int", 1)))])
-        return _d(v, [], [fn], setup=[fn])
-    return _d("signal_signal", [], [("decl", "Signal", n, ("bin", "+", h, ("int", 2)))], setup=first)
+        return _ds(n, v, [], [fn], setup=[fn])
+    return _ds(n, "signal_signal", [], [("decl", "Signal", n, ("bin", "+", h, ("int", 2)))], setup=first)
 
 
 def r_immutable(c):
     n, h = c.fresh("x"), c.hs()
     v = c.r.choice(["signal", "int", "iterator", "param", "host_signal"])
     if v == "iterator" and c.iters:
-        return _d(v, [], [("assign", c.iters[-1], ("int", 5))])
+        return _ds(c.iters[-1], v, [], [("assign", c.iters[-1], ("int", 5))])
     if v == "param" and c.encl_func:
-        return _d(v, [], [("assign", c.encl_func[2][0][1], ("bin", "+", h, ("int", 1)))])
+        return _ds(c.encl_func[2][0][1], v, [], [("assign", c.encl_func[2][0][1], ("bin", "+", h, ("int", 1)))])
     if v == "host_signal" and c.sigs:
-        return _d(v, [], [("assign", c.r.choice(c.sigs), ("bin", "+", h, ("int", 1)))])
+        tgt = c.r.choice(c.sigs)
+        return _ds(tgt, v, [], [("assign", tgt, ("bin", "+", h, ("int", 1)))])
     if v == "int":
-        return _d(v, [], [("assign", n, ("int", 4))], setup=[("decl", "int", n, ("int", 3))])
-    return _d("signal", [], [("assign", n, ("bin", "+", h, ("int", 2)))], setup=[("decl", "Signal", n, ("bin", "+", h, ("int", 1)))])
+        return _ds(n, v, [], [("assign", n, ("int", 4))], setup=[("decl", "int", n, ("int", 3))])
+    return _ds(n, "signal", [], [("assign", n, ("bin", "+", h, ("int", 2)))], setup=[("decl", "Signal", n, ("bin", "+", h, ("int", 1)))])
 
 
 def r_kind_decl(c):
@@ -636,11 +688,11 @@ def r_arity(c):
         f, params = c.r.choice(c.funcs)
         okargs = [h if k == "Signal" else ("int", 2) for k, _ in params]
         bad = okargs[:-1] if c.r.random() < 0.5 else okargs + [("int", 1)]
-        return _d(v, [("decl", "Signal", n, ("call", f, okargs))], [("decl", "Signal", n, ("call", f, bad))])
+        return _ds(f, v, [("decl", "Signal", n, ("call", f, okargs))], [("decl", "Signal", n, ("call", f, bad))])
     fn = ("func", g, [("Signal", p), ("int", p2)], [("ret", ("bin", "+", ("var", p), ("var", p2)))])
     good = [("decl", "Signal", n, ("call", g, [h, ("int", 2)]))]
     bad = {"too_few": [h], "too_many": [h, ("int", 2), ("int", 3)], "none": []}.get(v, [h])
-    return _d(v if v != "host_func" else "too_few", good, [("decl", "Signal", n, ("bin", "+", ("call", g, bad), ("int", 1)))], setup_top=[fn])
+    return _ds(g, v if v != "host_func" else "too_few", good, [("decl", "Signal", n, ("bin", "+", ("call", g, bad), ("int", 1)))], setup_top=[fn])
 
 
 def r_recursion(c):
@@ -673,17 +725,17 @@ def r_dup_member(c):
     v = r.choice(["literal", "literal_far", "via_variable", "nested_bundle", "via_projection"])
     good = [("decl", "Bundle", n, ("bundle", [("lit", i1, ("int", 1)), ("lit", i2, ("int", 2))]))]
     if v == "literal":
-        return _d(v, good, [("decl", "Bundle", n, ("bundle", [("lit", i1, ("int", 1)), ("lit", i1, ("int", 2))]))])
+        return _ds(i1, v, good, [("decl", "Bundle", n, ("bundle", [("lit", i1, ("int", 1)), ("lit", i1, ("int", 2))]))])
     if v == "literal_far":
-        return _d(v, good, [("decl", "Bundle", n, ("bundle", [("lit", i1, ("int", 1)), ("lit", i2, ("int", 2)), ("lit", "stone", ("int", 3)), ("lit", i1, ("int", 4))]))])
+        return _ds(i1, v, good, [("decl", "Bundle", n, ("bundle", [("lit", i1, ("int", 1)), ("lit", i2, ("int", 2)), ("lit", "stone", ("int", 3)), ("lit", i1, ("int", 4))]))])
     if v == "via_variable":
-        return _d(v, [("decl", "Bundle", n, ("bundle", [("var", n2), ("lit", i2, ("int", 1))]))],
+        return _ds(i1, v, [("decl", "Bundle", n, ("bundle", [("var", n2), ("lit", i2, ("int", 1))]))],
                   [("decl", "Bundle", n, ("bundle", [("var", n2), ("lit", i1, ("int", 1))]))], setup=[("decl", "Signal", n2, ("lit", i1, ("int", 5)))])
     if v == "via_projection":
         h = c.hs()
-        return _d(v, [("decl", "Bundle", n, ("bundle", [("proj", h, i1), ("lit", i2, ("int", 1))]))],
+        return _ds(i1, v, [("decl", "Bundle", n, ("bundle", [("proj", h, i1), ("lit", i2, ("int", 1))]))],
                   [("decl", "Bundle", n, ("bundle", [("proj", h, i1), ("lit", i2, ("int", 1)), ("proj", h, i1)]))])
-    return _d("nested_bundle", [("decl", "Bundle", n, ("bundle", [("var", n2), ("lit", "stone", ("int", 1))]))],
+    return _ds(i1, "nested_bundle", [("decl", "Bundle", n, ("bundle", [("var", n2), ("lit", "stone", ("int", 1))]))],
               [("decl", "Bundle", n, ("bundle", [("var", n2), ("lit", i1, ("int", 1))]))],
               setup=[("decl", "Bundle", n2, ("bundle", [("lit", i1, ("int", 1)), ("lit", i2, ("int", 2))]))])
 
@@ -724,12 +776,12 @@ def r_select_absent(c):
     n3 = c.fresh("x")
     v = c.r.choice(["decl", "nested", "derived"])
     if v == "decl":
-        return _d(v, [("decl", "Signal", n3, ("sel", ("var", n1), "coal"))], [("decl", "Signal", n3, ("sel", ("var", n1), "copper-plate"))], setup=setup)
+        return _ds("copper-plate", v, [("decl", "Signal", n3, ("sel", ("var", n1), "coal"))], [("decl", "Signal", n3, ("sel", ("var", n1), "copper-plate"))], setup=setup)
     if v == "nested":
-        return _d(v, [("decl", "Signal", n3, ("bin", "*", ("sel", ("var", n1), "coal"), ("int", 2)))],
+        return _ds("coal", v, [("decl", "Signal", n3, ("bin", "*", ("sel", ("var", n1), "coal"), ("int", 2)))],
                   [("decl", "Signal", n3, ("bin", "*", ("sel", ("var", n2), "coal"), ("int", 2)))], setup=setup)
     n4 = c.fresh("x")
-    return _d(v, [("decl", "Signal", n3, ("sel", ("var", n4), "iron-plate"))], [("decl", "Signal", n3, ("sel", ("var", n4), "stone"))],
+    return _ds("stone", v, [("decl", "Signal", n3, ("sel", ("var", n4), "iron-plate"))], [("decl", "Signal", n3, ("sel", ("var", n4), "stone"))],
               setup=setup + [("decl", "Bundle", n4, ("bin", "*", ("var", n1), ("int", 2)))])
 
 
@@ -749,7 +801,7 @@ def _signal_use(c, bad_name, good_name):
         mk = lambda t: [("mem", n, t)]
     else:
         mk = lambda t: [("decl", "Bundle", n, ("bundle", [("lit", "coal", ("int", 1)), ("lit", t, ("int", 2))]))]
-    return _d(v, mk(good_name), mk(bad_name))
+    return _ds(bad_name, v, mk(good_name), mk(bad_name))
 
 
 def r_unknown_signal(c):
@@ -766,14 +818,14 @@ def r_write_type(c):
     v = c.r.choice(["projection", "literal", "variable", "when"])
     setup = [("mem", m, t0)]
     if v == "projection":
-        return _d(v, [("write", m, ("proj", h, t0), None)], [("write", m, ("proj", h, t1), None)], setup=setup)
+        return _ds(m, v, [("write", m, ("proj", h, t0), None)], [("write", m, ("proj", h, t1), None)], setup=setup)
     if v == "literal":
-        return _d(v, [("write", m, ("lit", t0, ("int", 5)), None)], [("write", m, ("lit", t1, ("int", 5)), None)], setup=setup)
+        return _ds(m, v, [("write", m, ("lit", t0, ("int", 5)), None)], [("write", m, ("lit", t1, ("int", 5)), None)], setup=setup)
     if v == "when":
         w = ("cmp", ">", h, ("int", 1))
-        return _d(v, [("write", m, ("proj", h, t0), w)], [("write", m, ("proj", h, t1), w)], setup=setup)
+        return _ds(m, v, [("write", m, ("proj", h, t0), w)], [("write", m, ("proj", h, t1), w)], setup=setup)
     n = c.fresh("x")
-    return _d(v, [("decl", "Signal", n, ("lit", t0, ("int", 3))), ("write", m, ("var", n), None)],
+    return _ds(m, v, [("decl", "Signal", n, ("lit", t0, ("int", 3))), ("write", m, ("var", n), None)],
               [("decl", "Signal", n, ("lit", t1, ("int", 3))), ("write", m, ("var", n), None)], setup=setup)
 
 
@@ -787,15 +839,15 @@ def r_second_write(c):
     v = c.r.choice(opts)
     w1 = ("write", m, ("proj", h, A_), None)
     if v == "same_scope":
-        return _d(v, [], [("write", m, ("lit", A_, ("int", 7)), None)], setup=[("mem", m, A_), w1])
+        return _ds(m, v, [], [("write", m, ("lit", A_, ("int", 7)), None)], setup=[("mem", m, A_), w1])
     if v == "same_scope_when":
-        return _d(v, [], [("write", m, ("proj", h, A_), ("cmp", ">", h, ("int", 2)))], setup=[("mem", m, A_), w1])
+        return _ds(m, v, [], [("write", m, ("proj", h, A_), ("cmp", ">", h, ("int", 2)))], setup=[("mem", m, A_), w1])
     if v == "outer_cell":
         # the cell is declared and written once at the top level; the second write is in the hole
-        return _d(v, [], [("write", m, ("lit", A_, ("int", 7)), None)],
+        return _ds(m, v, [], [("write", m, ("lit", A_, ("int", 7)), None)],
                   setup_top=[("mem", m, A_), ("write", m, ("lit", A_, ("int", 1)), None)])
     # one write() in the body of a loop with >= 2 iterations, to a cell declared outside the loop
-    return _d(v, [], [("write", m, ("lit", A_, ("int", 7)), None)], setup_top=[("mem", m, A_)], base_setup_extra=True)
+    return _ds(m, v, [], [("write", m, ("lit", A_, ("int", 7)), None)], setup_top=[("mem", m, A_)], base_setup_extra=True)
 
 
 def r_zero_step(c):
@@ -808,8 +860,11 @@ def r_zero_step(c):
     if v == "descending":
         return _d(v, [("for", q, ("range", b, a, -1), body)], [("for", q, ("range", b, a, 0), body)])
     z = c.fresh("z")
-    return _d(v, [("decl", "int", z, ("int", 1)), ("for", q, ("range", a, b, z), body)],
-              [("decl", "int", z, ("int", 0)), ("for", q, ("range", a, b, z), body)])
+    # the step constant is declared at the top level (an int declared inside a loop body is not
+    # accepted as a loop bound by the compiler -- an over-rejection that is not C14's business)
+    z1 = c.fresh("z")
+    return _d(v, [("for", q, ("range", a, b, z1), body)], [("for", q, ("range", a, b, z), body)],
+              setup_top=[("decl", "int", z, ("int", 0)), ("decl", "int", z1, ("int", 1))])
 
 
 def r_noncmp(c):
@@ -865,7 +920,7 @@ def make_case(rule, shape, seed, zero_iter=False):
         "rule": rule, "variant": sn["variant"], "shape": ("loop0:" + shape) if zero_iter else shape,
         "host": hk, "host_owned": bool(getattr(c, "host_owned", False)), "seed": seed,
         "base": base, "mut": mut, "base_text": text(base), "mut_text": text(mut),
-        "bad_text": text(sn["bad"]).strip(), "iters": c.min_iters,
+        "bad_text": text(sn["bad"]).strip(), "iters": c.min_iters, "subject": sn.get("subject"),
     }
 
 
@@ -900,15 +955,18 @@ def cases(seed, per_cell, shapes=None, rules=None, loop0=4):
 #   double-operator  `a + * b`: no operand may start with * / % == && (they are not unary)
 #   step-without-bound / for-without-in   `step {`, `for NAME NUMBER`
 #   dangling-operator `= ;` after removing the whole right-hand side
-def syntax_mutants(rng, src, n):
+SYNTAX_KINDS = ["drop-semicolon", "drop-paren", "extra-paren", "drop-brace", "drop-name", "drop-equals",
+                "double-operator", "dangling-operator", "extra-close", "for-without-in", "step-without-bound"]
+
+
+def syntax_mutants(rng, src, n, start=0):
     import re
     out = []
-    kinds = ["drop-semicolon", "drop-paren", "extra-paren", "drop-brace", "drop-name", "drop-equals",
-             "double-operator", "dangling-operator", "extra-close", "for-without-in", "step-without-bound"]
+    kinds = SYNTAX_KINDS
     tries = 0
-    while len(out) < n and tries < 20 * n:
+    while len(out) < n and tries < len(kinds):
+        k = kinds[(start + tries) % len(kinds)]
         tries += 1
-        k = kinds[(len(out) + tries) % len(kinds)]
         t = None
         if k == "drop-semicolon":
             pos = [m.start() for m in re.finditer(";", src)]
@@ -949,7 +1007,7 @@ def syntax_mutants(rng, src, n):
             ms = list(re.finditer(r" (\+|\*|/|%|==|<|>|&&|\|\||AND|OR|XOR|<<|>>) ", src))
             if ms:
                 m = rng.choice(ms)
-                t = src[:m.end()] + rng.choice(["* ", "/ ", "% ", "== ", "&& ", "AND "]) + src[m.end():]
+                t = src[:m.end()] + rng.choice(["* ", "/ ", "% ", "== ", "&& "]) + src[m.end():]
         elif k == "dangling-operator":
             ms = list(re.finditer(r"\b(Signal|int) (\w+) = [^;{}]*;", src))
             if ms:
@@ -973,12 +1031,12 @@ def syntax_mutants(rng, src, n):
 def syntax_cases(seed, n):
     rng = random.Random(seed * 7919 + 13)
     out = []
-    i = 0
+    g = seed
     while len(out) < n:
         hk, hs_ = host(rng, rng.randrange(1 << 30))
         src = text(hs_)
-        for m in syntax_mutants(rng, src, 3):
+        for m in syntax_mutants(rng, src, 3, start=g):
             m.update({"id": f"s{len(out)}", "host": hk, "base_text": src})
             out.append(m)
-        i += 1
+        g += 3
     return out[:n]
